@@ -39,6 +39,7 @@ type script struct {
 	PaceUs  int  `json:"paceUs"`  // paced: trigger interval
 	Burst   int  `json:"burst"`   // extra unique lines per producer in the first phase (buffer overflow runs)
 	ShutMs  int  `json:"shutMs"`  // delay between the last log call and Shutdown
+	Pulses  int  `json:"pulses"`  // closing phase: single line, short pause, then more lines than the buffer holds (xN)
 }
 
 var (
@@ -199,6 +200,17 @@ func main() {
 		}
 		wg.Wait()
 		i = j
+	}
+	// pulses: one line wakes the writer, which writes it and backs off for 10 ms; during that pause more lines than
+	// the buffer holds arrive, so the writer is woken by a blocked producer (forced emptying) instead of the token
+	for pu := 0; pu < sc.Pulses; pu++ {
+		base := 2000000 + pu*10000
+		runOp(op{Kind: "log", P: 1, Origin: "logx", Sev: 6, Rep: 1, K: base})
+		time.Sleep(2 * time.Millisecond)
+		for k := 1; k <= 1100; k++ {
+			runOp(op{Kind: "log", P: 1, Origin: "logx", Sev: 6, Rep: 1, K: base + k})
+		}
+		time.Sleep(15 * time.Millisecond)
 	}
 	if sc.ShutMs > 0 {
 		time.Sleep(time.Duration(sc.ShutMs) * time.Millisecond)
